@@ -11,7 +11,7 @@ import harness as H
 from props.common import Report, build_or_report, count_theorems, print_assumptions
 
 PROP = "C01"
-FILES = ["Base/Int32.v", "Factorio/Circuit.v", "Valid/Hom.v", "Valid/Term.v", "Valid/SymExec.v",
+FILES = ["Base/Int32.v", "Factorio/Circuit.v", "Factorio/Nets.v", "Valid/Hom.v", "Valid/Term.v", "Valid/SymExec.v",
          "Facto/Syntax.v", "Facto/Denote.v", "Valid/CheckC01.v", "Props/C01.v"]
 
 
